@@ -6,6 +6,7 @@ package main
 import (
 	"fmt"
 	"go/ast"
+	"go/parser"
 	"regexp"
 	"strconv"
 	"strings"
@@ -130,6 +131,40 @@ func (p *Prog) extraObligations(o checkOpts) (obs []*Obligation, notes []string,
 		ob := preSolved(name, "bounded", fmt.Sprintf("%s:%d", shortSpec(r.File), r.Line), desc, bad == "", fmt.Sprintf("counterexample: %q", bad), serves)
 		obs = append(obs, ob)
 		notes = append(notes, desc)
+	}
+	// stand-alone SMT lemmas over spec functions
+	for _, r := range p.spec.Raw["smtlemma"] {
+		text := r.Text
+		var serves []string
+		if k := strings.Index(text, " serves "); k >= 0 {
+			serves = strings.Fields(text[k+8:])
+			text = text[:k]
+		}
+		if !servesProp(serves, o.id) {
+			continue
+		}
+		m := labelRe.FindStringSubmatch(text)
+		if m == nil {
+			errs = append(errs, fmt.Sprintf("%s:%d: smtlemma needs a name", r.File, r.Line))
+			continue
+		}
+		ex, err := parser.ParseExpr(rewriteImplies(m[2]))
+		if err != nil {
+			errs = append(errs, fmt.Sprintf("%s:%d: %v", r.File, r.Line, err))
+			continue
+		}
+		func() {
+			defer func() {
+				if rec := recover(); rec != nil {
+					errs = append(errs, fmt.Sprintf("%s:%d: %v", r.File, r.Line, rec))
+				}
+			}()
+			fx := &FuncCtx{prog: p, counts: map[string]int{}, trusted: map[string]bool{}, langsUsed: map[string]bool{}, specUsed: map[string]bool{}}
+			ev := &Ev{fx: fx, st: &State{pc: "true"}, contract: true, bound: map[string]Val{}}
+			goal := ev.boolOf(ev.ev(ex), ex)
+			script := p.header(fx.useSeq, fx.specUsed, fx.langsUsed, nil) + strings.Join(fx.lines, "\n") + "\n(assert (not " + goal + "))\n(check-sat)\n(get-model)\n"
+			obs = append(obs, &Obligation{Name: "smtlemma." + m[1], Kind: "lemma", Pos: fmt.Sprintf("%s:%d", shortSpec(r.File), r.Line), Desc: m[2], Expect: VUnsat, Script: script, Serves: serves})
+		}()
 	}
 	// differential validation of the regex->DFA translation for every code regex the property uses
 	more, mnotes := p.validateCodeRegexes(o)
